@@ -380,16 +380,101 @@ pub fn followup_case(seed: u64, l: &mut Local) {
     }
 }
 
+/// B5: an explicit verify request is exempt from the schedule of the search, not from backing off: the
+/// questions it causes about the instance and its host may come at the request, one second later, three
+/// seconds later ... (the doubling chain started afresh), never more often.
+pub fn verify_case(seed: u64, l: &mut Local) {
+    let mut rng = Rng::new(seed);
+    let mut w = World::new(seed);
+    let stepping = if rng.chance(1, 3) { Stepping::Eager(10) } else { Stepping::Lazy };
+    w.set_stepping(stepping);
+    let sl = slack(stepping);
+    let dual = rng.chance(1, 3);
+    let h = w.add_host(if dual { scen::single_dual() } else { scen::single_v4() });
+    w.set_ip_check_interval(h, 3600);
+    let t0 = w.now();
+    w.browse(h, "_t._udp.local.");
+    let label = if rng.chance(1, 2) { "Front Desk" } else { "verified" };
+    let mut s = scen::Svc::new("_t._udp.local.", label, "printer.local", [10, 0, 0, 30]);
+    s.ttl_ptr = 4500;
+    s.ttl_srv = 4500;
+    s.ttl_txt = 4500;
+    s.ttl_addr = 4500;
+    w.run_until(t0 + 50 + rng.below(900));
+    w.inject_msg(h, 2, scen::peer4(30), &s.announce());
+    let tv = t0 + 2000 + rng.below(6000);
+    w.run_until(tv);
+    let timeout = *rng.pick(&[3000u64, 5000, 10_000, 30_000]);
+    w.verify(h, &s.fullname(), timeout);
+    let answers = rng.chance(1, 2);
+    let horizon = tv + timeout + 3000;
+    let mut seen = w.trace.entries.len();
+    let mut cb = |w: &mut World| {
+        let mut any = false;
+        let n = w.trace.entries.len();
+        let mut replies = Vec::new();
+        for e in w.trace.entries[seen..n].iter() {
+            let Ev::Tx(tx) = &e.ev else { continue };
+            let Ok(m) = &tx.msg else { continue };
+            if !answers || !m.is_query() {
+                continue;
+            }
+            if m.questions.iter().any(|q| wire::names_eq_nocase(&q.name, &s.inst) || wire::names_eq_nocase(&q.name, &s.host)) {
+                let mut r = wire::Message::response();
+                r.answers.push(s.srv());
+                r.answers.push(s.txt());
+                r.answers.extend(s.addrs());
+                replies.push(r);
+            }
+        }
+        seen = n;
+        for r in replies {
+            w.inject_msg(h, 2, scen::peer4(30), &r);
+            any = true;
+        }
+        any
+    };
+    w.run_until_cb(horizon, &mut cb);
+    l.evaluations += 1;
+    l.distinct.insert(util::fnv_str(&format!("verify|{timeout}|{answers}|{dual}|{stepping:?}|{}", (tv - t0) / 500)));
+    if w.trace.deaths().any(|d| matches!(d.ev, Ev::Death { panicked: true, .. })) {
+        l.inconclusive.push(format!("daemon died in a C19 verify scenario (seed {seed})"));
+        return;
+    }
+    let txs = scen::tx_msgs(&w.trace, 0);
+    let about = |q: &wire::Question| wire::names_eq_nocase(&q.name, &s.inst) || wire::names_eq_nocase(&q.name, &s.host);
+    let mut rounds: Vec<u64> = txs.iter().filter(|tx| tx.t >= tv && tx.t < tv + timeout && tx.msg.is_query() && tx.msg.questions.iter().any(about)).map(|tx| tx.t - tv).collect();
+    rounds.dedup();
+    l.act("B5");
+    let chain = crate::model::schedule(0, timeout + 1000);
+    let wit = || json!({"scenario": format!("verify({}, {timeout} ms) at +{} ms, responder {}", s.fullname(), tv - t0, if answers { "answers" } else { "silent" }), "query_rounds_ms_after_the_request": rounds, "trace": scen::witness_window(&w.trace, tv, horizon, 60)});
+    for (j, at) in rounds.iter().enumerate() {
+        let allowed = chain.get(j).copied().unwrap_or(u64::MAX);
+        if at + sl + 1 < allowed {
+            l.violate(
+                Violation::new(
+                    "B5",
+                    format!("B5/verify-asks-more-often-than-the-back-off-allows/{}", if answers { "answered" } else { "unanswered" }),
+                    format!("after one verify request the questions about the instance went out at {rounds:?} ms; the round no. {} came {} ms after the request, the doubling schedule allows it after {} ms", j + 1, at, allowed),
+                )
+                .with(wit()),
+            );
+            return;
+        }
+    }
+}
+
 pub fn run(report: &Report, tier: &Tier) {
     report.set_rule(
         "the C13 'searches' workload (browse / browse again / stop / resolve_hostname with and without timeouts / dropped receivers, with \
          responders) over 20 s and over 2-3 virtual hours, plus lone searches left running for three virtual days; every PTR query for a \
          browsed type and every A/AAAA query for a resolved host name is attributed; plus an instance delivered in stages (PTR, then SRV/TXT or not, \
          never an address; PTR repeated; type browsed again) with nobody answering: the follow-up rounds about it are counted and timed; \
+         plus one verify request (timeout 3..30 s) for a resolved instance whose responder answers or stays silent: the questions it causes are held against the doubling chain started at the request; \
          distinct by (mode, stepping, operation sequence) / staging",
     );
     report.assume("services of browsed types live on hosts nobody resolves by name; in the search workloads follow-up and verify queries (instance ANY/SRV/TXT, host A/AAAA of browsed instances) are not attributed; the follow-up exemption is judged by B4 on staged deliveries");
-    for r in ["B1", "B2", "B3", "B4"] {
+    for r in ["B1", "B2", "B3", "B4", "B5"] {
         report.floor(r, 50);
     }
     report.floor("B2-refresh", 5);
@@ -398,7 +483,11 @@ pub fn run(report: &Report, tier: &Tier) {
     // follow-up rounds for an instance delivered in stages
     let nf: u64 = if tier.thorough { 40_000 } else { 1_000 };
     run_parallel(report, nf, threads(), tier.budget_s * 0.15, |i, l| {
-        followup_case(util::mix(seed, 0xC19_F000 + i), l);
+        if i % 3 == 2 {
+            verify_case(util::mix(seed, 0xC19_E000 + i), l);
+        } else {
+            followup_case(util::mix(seed, 0xC19_F000 + i), l);
+        }
     });
     run_parallel(report, n, threads(), tier.budget_s * 0.85, |i, l| {
         let mode = match i % 12 {
